@@ -559,7 +559,10 @@ def generic_diff(mod, ctx, cases, cov, violations, known_hits, notes):
                     cov["oracle_failed"] += 1
         if bad_oracle is not None:
             fid = classify(c, io_full) if classify else None
-            if fid:
+            # a listed finding is only recognised when the faithful model reproduces the
+            # implementation's behaviour exactly; the same symptom with a different
+            # observation is a different violation
+            if fid and io == mo:
                 known_hits.setdefault(fid, "%s on `%s`" % (bad_oracle, short(c.line, 160)))
                 continue
             if reported < 5:
